@@ -26,5 +26,26 @@ def run(ctx):
                      ctxkeys=("none", "k2", ""), workers=4, mode="seq_cache_any"))
     mism = seq.run_jobs(ctx, jobs, par=2)
     seq.report(ctx, mism, accept)
+    # overlapping executions through ONE cache policy (different keys, sync and async), cancellations and timeouts around it:
+    # traces validated against the cache layer of specs/FailsafeT.tla; the cache's contents are compared at quiescence
+    import p_c07, tscen
+    from tscen import scenario, fn, start, env, to, retry, fb, cache, cE, cR
+    scs = []
+    stacks = [[cache("c")], [cache("c"), retry(1, dly=1)], [to(2), cache("c")], [cache("c"), to(2)], [fb(), cache("c", ifc=[cE("E1")])],
+              [cache("c", key=""), retry(1, dly=1)], [cache("c"), cache("d", key="k9")]]
+    for st in stacks:
+        for cks in (("none", "k2", "none"), ("k1", "k2", "k1"), ("k1", "k1", "none")):
+            for starts in ((0, 0, 3), (0, 1, 2), (0, 4, 8)):
+                for pat in ("SSS", "FSS", "SFS"):
+                    for coop in (True, False):
+                        fns = [[fn(3 if j == 0 else 2, "R1" if p == "S" else "R0", None if p == "S" else "E1", coop)] * 3 for j, p in enumerate(pat)]
+                        base = [start(j + 1, at, asyn=(j == 1), ck=cks[j]) for j, at in enumerate(starts)]
+                        scs.append(scenario(st, fns, base))
+                        if pat == "SSS":
+                            for ct in ((1, 2) if quick else (0, 1, 2, 3)):
+                                scs.append(scenario(st, fns, base + [env("CtxCancel", ct, 1)]))
+    if quick:
+        scs = scs[ctx.seed % 3::3]
+    p_c07.run_family(ctx, "c11t", scs)
     return vlib.finish(ctx, rule="cache-centred stacks (configured key, CacheIf on a result, CacheIf on an error, no key) alone, over and under stateful inner policies; histories of 3-4 executions "
                        "whose context carries no key / the configured key / another key / the empty string / a non-string; non-trivial = more than one invocation or any policy event", exhaustive=True)
